@@ -13,7 +13,7 @@ CONSTANTS MaxLen,      \* chains of 1..MaxLen operators
 
 VARIABLE chain
 
-Names == {"big", "small", "on", "a", "b", "nope"}   \* three indexes, two data columns, an unknown name
+Names == {"big", "small", "on", "a", "b", "e", "nope"}   \* three indexes, three data columns, an unknown name
 NameSeqs == {<<n>> : n \in Names} \cup (IF Pairs THEN {<<n, m>> : n \in Names, m \in Names} ELSE {})
 NameOps == {[f |-> f, names |-> ns] : f \in {"with", "without", "union", "withunion"}, ns \in NameSeqs}
 ValueOps ==
@@ -26,7 +26,10 @@ ValueOps ==
     [f |-> "wint",   col |-> "s", p |-> [f |-> "ge", a |-> 0]],
     [f |-> "wint",   col |-> "nope", p |-> [f |-> "ge", a |-> 0]],
     [f |-> "wstr",   col |-> "s", p |-> [f |-> "eq", a |-> <<0>>]],
-    [f |-> "wstr",   col |-> "a", p |-> [f |-> "eq", a |-> <<0>>]] }
+    [f |-> "wstr",   col |-> "a", p |-> [f |-> "eq", a |-> <<0>>]],
+    [f |-> "wstr",   col |-> "e", p |-> [f |-> "eq", a |-> "e1"]],
+    [f |-> "wstr",   col |-> "e", p |-> [f |-> "eq", a |-> "e2"]],
+    [f |-> "wval",   col |-> "e", p |-> [f |-> "eq", a |-> "e1"]] }
 Ops == NameOps \cup ValueOps
 
 Init == chain = <<>>
